@@ -68,7 +68,8 @@ Record same_but_outcome (s s' : state) : Prop := {
   sbo_plan : plan s' = plan s; sbo_cons : consumed s' = consumed s; sbo_pools : pools s' = pools s;
   sbo_cl : msg_cl s' = msg_cl s; sbo_retries : retries s' = retries s; sbo_ncons : nconsult s' = nconsult s;
   sbo_errors : errors s' = errors s; sbo_queue : queue s' = queue s; sbo_att : attempts s' = attempts s;
-  sbo_armed : spec_armed s' = false; sbo_left : spec_left s' = spec_left s; sbo_ks : conn_ks s' = conn_ks s
+  sbo_armed : spec_armed s' = false; sbo_left : spec_left s' = spec_left s; sbo_ks : conn_ks s' = conn_ks s;
+  sbo_page : page_no s' = page_no s
 }.
 
 Lemma fail_with_same s x : same_but_outcome s (fail_with s x).
@@ -76,6 +77,13 @@ Proof. unfold fail_with. destruct (completed s); constructor; reflexivity. Qed.
 
 Lemma finish_with_same s r : same_but_outcome s (finish_with s r).
 Proof. unfold finish_with. destruct (completed s); constructor; reflexivity. Qed.
+
+Lemma finish_rows_same s b : same_but_outcome s (finish_rows s b).
+Proof. unfold finish_rows. destruct (completed s); constructor; reflexivity. Qed.
+
+Lemma finish_rows_res s b : fin_res (finish_rows s b) = (if completed s then fin_res s else Some FRows)
+                            /\ fin_exc (finish_rows s b) = fin_exc s.
+Proof. unfold finish_rows. destruct (completed s); split; reflexivity. Qed.
 
 Lemma fail_with_exc s x : fin_exc (fail_with s x) = (if completed s then fin_exc s else Some x)
                           /\ fin_res (fail_with s x) = fin_res s.
@@ -89,7 +97,9 @@ Lemma q_fw s x : queue (fail_with s x) = queue s.
 Proof. apply fail_with_same. Qed.
 Lemma q_fi s r : queue (finish_with s r) = queue s.
 Proof. apply finish_with_same. Qed.
-Ltac qnorm := rewrite ?q_fw, ?q_fi in *.
+Lemma q_fr s b : queue (finish_rows s b) = queue s.
+Proof. apply finish_rows_same. Qed.
+Ltac qnorm := rewrite ?q_fw, ?q_fi, ?q_fr in *.
 
 Lemma not_completed s : fin_res s = None -> fin_exc s = None -> completed s = false.
 Proof. unfold completed. intros -> ->. reflexivity. Qed.
@@ -120,7 +130,7 @@ Inductive walked (s : state) (p : list host) (b : bool) (s' : state) (ev : list 
     (Hcons : consumed s' = consumed s ++ sk ++ [h])
     (Hev : ev = map (fun x => ErrSet x (match reason (pool_of s x) with Some e => e | None => EDown end)) sk
                 ++ [Sent h (MOrig (msg_cl s)) CPlan])
-    (Hatt : attempts s' = attempts s ++ [{| a_host := h; a_prep := false; a_done := false |}])
+    (Hatt : attempts s' = attempts s ++ [{| a_host := h; a_prep := false; a_done := false; a_page := page_no s |}])
     (Hexc : fin_exc s' = fin_exc s)
     (Harm : spec_armed s' = spec_armed s)
 | walked_exhausted
@@ -141,7 +151,8 @@ Record walk_frame (s s' : state) : Prop := {
   wf_queue : queue s' = queue s;
   wf_res : fin_res s' = fin_res s;
   wf_left : spec_left s' = spec_left s;
-  wf_ks : conn_ks s' = conn_ks s
+  wf_ks : conn_ks s' = conn_ks s;
+  wf_page : page_no s' = page_no s
 }.
 
 Lemma pool_of_ext s1 s2 h : pools s1 = pools s2 -> pool_of s1 h = pool_of s2 h.
